@@ -4,10 +4,14 @@
 // oracle after every step, and ContinueScript compared with stepping on every explored script.
 #include "scriptcmp.hpp"
 
-struct Item { Cfg cfg; std::vector<int> prefix; int depth; };
+struct Item { Cfg cfg; std::vector<int> prefix; int depth; bool cond_alphabet = false; };
 
 // exhaustive BFS below `prefix` to `depth` symbols in total
-static void explore(const Item& it, const std::vector<alpha::Sym>& sigma, Violations& V, Stats& S, std::vector<std::string>* samples = nullptr) {
+static void explore(const Item& it, const std::vector<alpha::Sym>& sigma_full, Violations& V, Stats& S, std::vector<std::string>* samples = nullptr) {
+    // conditional-nesting alphabet: {0, 1, IF, NOTIF, ELSE, ENDIF, DROP}: deep nesting / ELSE patterns at small branching factor
+    std::vector<alpha::Sym> sigma_cond;
+    if (it.cond_alphabet) for (auto& s : sigma_full) if (s.enc.size() == 1 && (s.enc[0] == 0x00 || s.enc[0] == 0x51 || s.enc[0] == 0x63 || s.enc[0] == 0x64 || s.enc[0] == 0x67 || s.enc[0] == 0x68 || s.enc[0] == 0x75)) sigma_cond.push_back(s);
+    const std::vector<alpha::Sym>& sigma = it.cond_alphabet ? sigma_cond : sigma_full;
     bytes base;
     for (int s : it.prefix) base.insert(base.end(), sigma[s].enc.begin(), sigma[s].enc.end());
     std::vector<ref::Machine> frontier;
@@ -189,6 +193,10 @@ int main(int argc, char** argv) {
         if (dC > 0) { for (auto sv : svs) for (uint32_t f : {0u, ref::F_STANDARD}) add(sv, f, {}, dC, true); plan.push_back("C: depth " + std::to_string(dC) + " from [] under {NONE, STANDARD} x 3 sigversions"); }
         for (auto sv : svs) for (uint32_t f : {0u, ref::F_STANDARD}) for (auto& init : tuples(Vs, lenI)) if (!init.empty()) add(sv, f, init, 2, false);
         plan.push_back("D: depth 2 from every initial stack over Vs of length 1.." + std::to_string(lenI) + " under {NONE, STANDARD} x 3 sigversions");
+        // F: conditional nesting at depth
+        { int dF = int(a.geti("dF", tier == "quick" ? 8 : 10));
+          for (auto sv : svs) for (uint32_t f : {0u, ref::F_STANDARD}) { Item itF{Cfg{sv, f, {}}, {}, dF, true}; items.push_back(itF); }
+          plan.push_back("F: depth " + std::to_string(dF) + " over the conditional alphabet {0, 1, IF, NOTIF, ELSE, ENDIF, DROP} from [] under {NONE, STANDARD} x 3 sigversions (deep nesting and ELSE patterns)"); }
         // E: depth 1 from every triple over V (operand order / off-by-one / sign handling)
         { auto Vv = alpha::V(); int n = tier == "quick" ? 12 : int(Vv.size()); std::vector<bytes> sub(Vv.begin(), Vv.begin() + std::min<size_t>(n, Vv.size()));
           for (auto sv : svs) for (uint32_t f : {0u, ref::F_STANDARD}) for (auto& init : tuples(sub, 3)) if (init.size() >= 2) add(sv, f, init, 1, false);
